@@ -123,7 +123,7 @@ command:
 
 func workflowYAML(ts []taskSpec) string {
 	var b strings.Builder
-	b.WriteString("name: c03wf\ndefaults:\n  deploy_timeout: 30s\nroles:\n")
+	b.WriteString("name: c03wf\ndefaults:\n  deploy_timeout: 15s\nroles:\n")
 	for i, t := range ts {
 		fmt.Fprintf(&b, "  - name: \"r%d\"\n    constraints:\n      - attribute: machine_id\n        value: \"host%d\"\n    task:\n      load: t%d\n      critical: %v\n", i, t.host, i, t.crit)
 	}
